@@ -77,6 +77,8 @@ class Profile:
     p_ret: int = 12                     # the body returns None / 0 / False / '' / a Future
     p_latefill: int = 6                 # schedulers created empty, wired, then filled
     p_block: int = 0                    # a job has a blocking (synchronous) section
+    p_late_critical: int = 8
+    p_flagform: int = 10
     p_big: int = 8                      # % of schedulers that may have up to big_members
     big_members: int = 9
     force_nested: int = 0               # % of cases whose top has a nested scheduler for sure
@@ -106,7 +108,7 @@ def _draw_job(draw, prof, wild, wide=False):
         extra['exc'] = draw(st.sampled_from(EXC_NAMES))
         if chance(draw, 40):
             extra['excmsg'] = draw(st.sampled_from(ODD_LABELS))
-    if chance(draw, 8):
+    if chance(draw, prof.p_late_critical):
         extra['late_critical'] = True       # the job turns critical just before raising
     if chance(draw, prof.p_ret):
         extra['ret'] = draw(st.sampled_from(['none', 'zero', 'false', 'empty', 'future-done',
@@ -126,7 +128,7 @@ def _draw_job(draw, prof, wild, wide=False):
         c=draw(weighted(prof.cs)), sd=draw(weighted(prof.sds)),
         hkey=draw(st.integers(0, prof.hkeys - 1)), tkey=draw(st.integers(0, prof.tkeys - 1)),
         late_attrs=chance(draw, prof.p_late_attrs),
-        flagform='alt' if chance(draw, 10) else 'bool')
+        flagform='alt' if chance(draw, prof.p_flagform) else 'bool')
 
 
 def _fix_late_critical(job):
@@ -265,7 +267,7 @@ def _draw_sched(draw, prof, depth, under_timeout, budget, top=False):
                else sorted(range(n), key=lambda i: (i * 7919 + 13) % 1009)),
         build=draw(weighted((('ctor', 3), ('add', 2), ('update', 1), ('mixed', 1),
                              ('scheduler=', 1)))),
-        flagform='alt' if chance(draw, 10) else 'bool',
+        flagform='alt' if chance(draw, prof.p_flagform) else 'bool',
         wild=wild, late_attrs=chance(draw, prof.p_late_attrs),
         watch=chance(draw, prof.p_watch))
     if chance(draw, prof.p_label):
@@ -323,26 +325,36 @@ def assign_ids(spec):
     return spec
 
 
+PLAIN = dict(p_label=0, p_exc=0, p_ret=0, p_late_attrs=0, p_watch=0, p_inspect=0, p_prelude=0,
+             p_latefill=0, p_rerun=0, p_block=0, p_wide=0, p_late_critical=0, p_flagform=0)
+
+
 @st.composite
 def scenarios(draw, prof=GENERAL):
+    # the extra dimensions must not dilute the core search (shapes, flags, times, orders):
+    # nearly half of the cases are plain trees
+    plain = chance(draw, 45)
+    if plain:
+        prof = prof.but(**PLAIN)
     budget = [prof.max_jobs]
     top = _draw_sched(draw, prof, 0, False, budget, top=True)
     top['inspect'] = chance(draw, prof.p_inspect)
     top['prelude'] = chance(draw, prof.p_prelude)
     top['latefill'] = chance(draw, prof.p_latefill)
-    if chance(draw, 3):
+    if not plain and chance(draw, 3):
         top['watch_age'] = draw(st.sampled_from([1500, 90000]))    # an old Watch
     if len(top['members']) > 40:
         # quadratic inspection / re-wiring work on hundreds of members buys nothing
         top['inspect'] = False
         if len(top['members']) > 130:
             top['prelude'] = False
-    top['entry'] = draw(weighted((('run', 6), ('orchestrate', 1), ('co_run', 2),
-                                  ('run-no-current-loop', 1), ('co_run-called-early', 1))))
+    top['entry'] = 'run' if plain else draw(weighted(
+        (('run', 6), ('orchestrate', 1), ('co_run', 2), ('run-no-current-loop', 1),
+         ('co_run-called-early', 1))))
     if top['entry'] == 'co_run-called-early' and chance(draw, 60) \
             and len(top['members']) <= 130:
         top['prelude'] = True       # the coroutine is obtained before the final wiring
-    if chance(draw, 5):
+    if not plain and chance(draw, 8):
         rescale(top, 40)            # minutes rather than seconds: 0.25 -> 10, 8 -> 320
     if chance(draw, prof.p_rerun):
         top['rerun'] = True
